@@ -445,7 +445,9 @@ def main(argv=None):
             harness_errors.append(f"known finding {e['id']} has no witness in {modname}")
             continue
         try:
-            still, text = w()
+            with warnings.catch_warnings():
+                warnings.simplefilter("ignore")
+                still, text = w()
         except Exception:
             harness_errors.append(f"witness {e['id']} crashed:\n{traceback.format_exc()}")
             continue
